@@ -28,6 +28,7 @@ fn main() {
         "C26" => props::c26::run(&mut ctx),
         "C27" => props::c27::run(&mut ctx),
         "C28" => props::c28::run(&mut ctx),
+        "C33" => props::c33::run(&mut ctx),
         other => {
             eprintln!("zg: unknown property {other}");
             std::process::exit(3);
